@@ -1,13 +1,631 @@
 package main
 
 import (
+	"context"
+	"database/sql"
+	"errors"
+	"fmt"
+	"io"
+	"net/http"
+	"net/http/httptest"
+	"path"
+
+	"github.com/DATA-DOG/go-sqlmock"
+	red "github.com/redis/go-redis/v9"
+	"github.com/zeromicro/go-zero/core/breaker"
+	"github.com/zeromicro/go-zero/core/stat"
+	"github.com/zeromicro/go-zero/core/stores/redis"
+	"github.com/zeromicro/go-zero/core/stores/sqlx"
+	"github.com/zeromicro/go-zero/rest/handler"
 	"github.com/zeromicro/go-zero/verifshim/vlib"
+	"github.com/zeromicro/go-zero/verifshim/vsched"
+	"github.com/zeromicro/go-zero/zrpc"
+	"google.golang.org/grpc"
+	gcodes "google.golang.org/grpc/codes"
+	"google.golang.org/grpc/credentials/insecure"
+	"google.golang.org/grpc/status"
 )
+
+// ---- wrappers (C) -----------------------------------------------------------------------------
+//
+// The wrappers are outcome classifiers around the same breaker calls. Each case is one request
+// through the real wrapper; the reference classification is the documented one:
+//   rest   : status < 500 success, >= 500 failure (BreakerHandler)
+//   gRPC   : DeadlineExceeded, ResourceExhausted, Unimplemented, Internal, Unavailable, DataLoss
+//            are failures, every other code a success; server side additionally the raw
+//            context.DeadlineExceeded and a nested ErrServiceUnavailable are failures
+//   redis  : nil, redis.Nil, context.Canceled success; anything else failure; blpop bypasses
+//   sqlx   : nil, sql.ErrNoRows, sql.ErrTxDone, context.Canceled, argument-formatting errors, scan
+//            failures and whatever WithAcceptable accepts are successes; anything else failure
 
 type WrapCase struct {
 	Kind string `json:"kind"`
+	Code int    `json:"code,omitempty"`
+	Err  string `json:"err,omitempty"`
+	Opt  bool   `json:"opt,omitempty"` // sqlx: WithAcceptable option present
 }
 
-func runWrappers(r *vlib.Report) {}
+func (c WrapCase) String() string {
+	return fmt.Sprintf("%s code=%d err=%q opt=%v", c.Kind, c.Code, c.Err, c.Opt)
+}
 
-func replayWrapper(c *WrapCase) *fail { return nil }
+// ---------- counting fake breaker ----------
+
+type fakePromise struct{ fb *fakeBreaker }
+
+func (p fakePromise) Accept()         { p.fb.accepts++ }
+func (p fakePromise) Reject(_ string) { p.fb.rejects++ }
+
+type fakeBreaker struct {
+	calls    map[string]int
+	verdicts []bool
+	reqErr   []error
+	accepts  int
+	rejects  int
+}
+
+func newFake() *fakeBreaker { return &fakeBreaker{calls: map[string]int{}} }
+
+func (f *fakeBreaker) run(method string, req func() error, acc breaker.Acceptable) error {
+	f.calls[method]++
+	err := req()
+	f.reqErr = append(f.reqErr, err)
+	if acc == nil {
+		f.verdicts = append(f.verdicts, err == nil)
+	} else {
+		f.verdicts = append(f.verdicts, acc(err))
+	}
+	return err
+}
+func (f *fakeBreaker) total() int {
+	n := 0
+	for _, v := range f.calls {
+		n += v
+	}
+	return n
+}
+func (f *fakeBreaker) Name() string { return "c01-fake" }
+func (f *fakeBreaker) Allow() (breaker.Promise, error) {
+	f.calls["Allow"]++
+	return fakePromise{f}, nil
+}
+func (f *fakeBreaker) AllowCtx(ctx context.Context) (breaker.Promise, error) {
+	f.calls["AllowCtx"]++
+	return fakePromise{f}, nil
+}
+func (f *fakeBreaker) Do(req func() error) error { return f.run("Do", req, nil) }
+func (f *fakeBreaker) DoCtx(ctx context.Context, req func() error) error {
+	return f.run("DoCtx", req, nil)
+}
+func (f *fakeBreaker) DoWithAcceptable(req func() error, acc breaker.Acceptable) error {
+	return f.run("DoWithAcceptable", req, acc)
+}
+func (f *fakeBreaker) DoWithAcceptableCtx(ctx context.Context, req func() error, acc breaker.Acceptable) error {
+	return f.run("DoWithAcceptableCtx", req, acc)
+}
+func (f *fakeBreaker) DoWithFallback(req func() error, fb breaker.Fallback) error {
+	return f.run("DoWithFallback", req, nil)
+}
+func (f *fakeBreaker) DoWithFallbackCtx(ctx context.Context, req func() error, fb breaker.Fallback) error {
+	return f.run("DoWithFallbackCtx", req, nil)
+}
+func (f *fakeBreaker) DoWithFallbackAcceptable(req func() error, fb breaker.Fallback, acc breaker.Acceptable) error {
+	return f.run("DoWithFallbackAcceptable", req, acc)
+}
+func (f *fakeBreaker) DoWithFallbackAcceptableCtx(ctx context.Context, req func() error, fb breaker.Fallback, acc breaker.Acceptable) error {
+	return f.run("DoWithFallbackAcceptableCtx", req, acc)
+}
+
+// ---------- rest ----------
+
+var restMetrics *stat.Metrics
+
+// restCase drives a fresh BreakerHandler (its breaker is private: observed through behaviour).
+//   code >= 500: six such responses are all passed through even under the drop answer (at most
+//                5 non-accepted records before each: the law forbids a rejection, so nothing is
+//                counted twice); the 7th request is then refused with 503 under the drop answer
+//                (6 failures, nothing accepted: rejection probability 1/7 > 0), which shows they
+//                were counted as failures.
+//   code <  500: 60 such responses, then six 500s: everything passed through, and so is a 7th 500
+//                under the drop answer (6 non-accepted vs 5 + 10% of 60 = 11): refused only if
+//                the 60 were not counted as accepted.
+func restCase(code int) *fail {
+	vsched.SetNow(0)
+	if restMetrics == nil {
+		restMetrics = stat.NewMetrics("c01")
+	}
+	cur, calls := 0, 0
+	next := http.HandlerFunc(func(w http.ResponseWriter, r *http.Request) {
+		calls++
+		if cur != 0 {
+			w.WriteHeader(cur)
+		}
+	})
+	h := handler.BreakerHandler(http.MethodGet, fmt.Sprintf("/c01/%d", code), restMetrics)(next)
+	do := func(c int) (status int, called bool) {
+		cur = c
+		before := calls
+		hook.mode = ansDrop
+		rec := httptest.NewRecorder()
+		h.ServeHTTP(rec, httptest.NewRequest(http.MethodGet, "/c01", nil))
+		hook.mode = ansPass
+		if calls-before > 1 {
+			return -1, true
+		}
+		return rec.Code, calls > before
+	}
+	want := code
+	if code == 0 {
+		want = 200 // handler writes nothing
+	}
+	if code >= 500 {
+		for i := 1; i <= 6; i++ {
+			st, called := do(code)
+			if !called || st != want {
+				return &fail{"rest-5xx-rejected-early", fmt.Sprintf("BreakerHandler: request %d answering %d: next called=%v, status %d (only %d failures recorded before it: a rejection needs more than 5)", i, code, called, st, i-1)}
+			}
+		}
+		st, called := do(code)
+		if called || st != http.StatusServiceUnavailable {
+			return &fail{"rest-5xx-not-counted-as-failure", fmt.Sprintf("BreakerHandler: after six %d responses the 7th request (coin = drop) was passed through (called=%v status=%d): the %d responses were not recorded as failures", code, called, st, code)}
+		}
+		return nil
+	}
+	for i := 1; i <= 60; i++ {
+		st, called := do(code)
+		if !called || st != want {
+			return &fail{"rest-success-code-rejected", fmt.Sprintf("BreakerHandler: request %d answering %d: next called=%v, status %d although nothing but such responses was recorded", i, code, called, st)}
+		}
+	}
+	for i := 1; i <= 7; i++ {
+		st, called := do(500)
+		if !called || st != 500 {
+			return &fail{"rest-success-code-not-counted-as-success", fmt.Sprintf("BreakerHandler: after 60 responses with status %d, 500-response %d was refused (called=%v status=%d) although at most 6 non-accepted stand against 60 accepted (needs > 11)", code, i, called, st)}
+		}
+	}
+	return nil
+}
+
+// ---------- gRPC ----------
+
+var grpcFailureCodes = map[gcodes.Code]bool{
+	gcodes.DeadlineExceeded: true, gcodes.ResourceExhausted: true, gcodes.Unimplemented: true,
+	gcodes.Internal: true, gcodes.Unavailable: true, gcodes.DataLoss: true,
+}
+
+type namedErr struct {
+	name    string
+	err     error
+	success bool
+}
+
+func grpcErrors(server bool) []namedErr {
+	out := []namedErr{{"nil", nil, true}}
+	for c := gcodes.Code(1); c <= gcodes.Unauthenticated; c++ {
+		out = append(out, namedErr{"status:" + c.String(), status.Error(c, "c01"), !grpcFailureCodes[c]})
+	}
+	out = append(out,
+		namedErr{"status-from-ctx:canceled", status.FromContextError(context.Canceled).Err(), true},
+		namedErr{"status-from-ctx:deadline", status.FromContextError(context.DeadlineExceeded).Err(), false},
+		namedErr{"plain-error", errors.New("c01 plain"), true}, // no status: code Unknown
+		namedErr{"raw:context.Canceled", context.Canceled, true},
+	)
+	if server {
+		out = append(out,
+			namedErr{"raw:context.DeadlineExceeded", context.DeadlineExceeded, false},
+			namedErr{"nested:ErrServiceUnavailable", breaker.ErrServiceUnavailable, false},
+		)
+	}
+	return out
+}
+
+func findErr(list []namedErr, name string) (namedErr, bool) {
+	for _, e := range list {
+		if e.name == name {
+			return e, true
+		}
+	}
+	return namedErr{}, false
+}
+
+func namedTotals(name string) (s, f, d int64) {
+	if !breaker.VerifRegistered(name) {
+		return 0, 0, 0
+	}
+	_, s, f, d = breaker.VerifTotals(breaker.GetBreaker(name))
+	return
+}
+
+var grpcConn *grpc.ClientConn
+var grpcSeq int
+
+// oneRecord checks the window delta of a named breaker: exactly one record of the wanted kind.
+func oneRecord(what, bname string, s0, f0, d0 int64, want Kind) *fail {
+	s1, f1, d1 := namedTotals(bname)
+	ds, df, dd := s1-s0, f1-f0, d1-d0
+	var ws, wf, wd int64
+	switch want {
+	case KS:
+		ws = 1
+	case KF:
+		wf = 1
+	case KD:
+		wd = 1
+	}
+	if ds != ws || df != wf || dd != wd {
+		cls := "wrapper-wrong-kind"
+		switch {
+		case ds+df+dd == 0:
+			cls = "wrapper-not-recorded"
+		case ds+df+dd > 1:
+			cls = "wrapper-recorded-twice"
+		}
+		return &fail{cls + ":" + what, fmt.Sprintf("%s: breaker %q changed by S%+d F%+d D%+d, want exactly one %v record", what, bname, ds, df, dd, want)}
+	}
+	return nil
+}
+
+// grpcCase: kind = zrpc-client | zrpc-unary | zrpc-stream; mode (Code): 0 one request on a fresh
+// breaker, 1 done context, 2 request on a breaker that is throttling (coin = drop).
+func grpcCase(kind string, errName string, mode int) *fail {
+	vsched.SetNow(0)
+	server := kind != "zrpc-client"
+	ne, ok := findErr(grpcErrors(server), errName)
+	if !ok {
+		return &fail{"bad-case", "unknown error " + errName}
+	}
+	grpcSeq++
+	method := fmt.Sprintf("/c01.Svc/M%d", grpcSeq)
+	bname := method
+	if !server {
+		if grpcConn == nil {
+			cc, err := grpc.NewClient("passthrough:///c01", grpc.WithTransportCredentials(insecure.NewCredentials()))
+			if err != nil {
+				vlib.Fatal("grpc.NewClient: %v", err)
+			}
+			grpcConn = cc
+		}
+		bname = path.Join(grpcConn.Target(), method)
+	}
+	defer breaker.VerifForget(bname)
+	ctx := context.Background()
+	if mode == 1 {
+		c, cancel := context.WithCancel(ctx)
+		cancel()
+		ctx = c
+	}
+	if mode == 2 {
+		b := breaker.GetBreaker(bname)
+		for i := 0; i < 60; i++ {
+			b.Do(func() error { return errBad })
+		}
+	}
+	calls := 0
+	respVal := &struct{ x int }{7}
+	var err error
+	var resp any
+	s0, f0, d0 := namedTotals(bname)
+	hook.mode = ansDrop
+	switch kind {
+	case "zrpc-client":
+		err = zrpc.VerifClientBreakerInterceptor(ctx, method, nil, nil, grpcConn,
+			func(ctx context.Context, m string, req, reply any, cc *grpc.ClientConn, opts ...grpc.CallOption) error {
+				calls++
+				return ne.err
+			})
+	case "zrpc-unary":
+		resp, err = zrpc.VerifUnaryServerBreakerInterceptor(ctx, nil, &grpc.UnaryServerInfo{FullMethod: method},
+			func(ctx context.Context, req any) (any, error) {
+				calls++
+				return respVal, ne.err
+			})
+	case "zrpc-stream":
+		if mode == 1 {
+			hook.mode = ansPass
+			return nil // no context on the stream interceptor
+		}
+		err = zrpc.VerifStreamServerBreakerInterceptor(nil, nil, &grpc.StreamServerInfo{FullMethod: method},
+			func(srv any, stream grpc.ServerStream) error {
+				calls++
+				return ne.err
+			})
+	}
+	hook.mode = ansPass
+	what := kind + "/" + errName
+	if !breaker.VerifRegistered(bname) && mode != 1 {
+		return &fail{"harness-breaker-name", fmt.Sprintf("%s: no breaker registered under %q", what, bname)}
+	}
+	switch mode {
+	case 1:
+		if calls != 0 {
+			return &fail{"wrapper-done-ctx-ran-request:" + kind, what + ": handler ran although the context was done"}
+		}
+		if !errors.Is(err, context.Canceled) {
+			return &fail{"wrapper-done-ctx-wrong-error:" + kind, fmt.Sprintf("%s: done context: returned %v, want context.Canceled", what, err)}
+		}
+		s1, f1, d1 := namedTotals(bname)
+		if s1 != s0 || f1 != f0 || d1 != d0 {
+			return &fail{"wrapper-done-ctx-recorded:" + kind, what + ": done context changed the window"}
+		}
+		return nil
+	case 2:
+		if calls != 0 {
+			return &fail{"wrapper-rejected-ran-request:" + kind, what + ": handler ran although the breaker refused (60 failures, coin = drop)"}
+		}
+		if server {
+			if status.Code(err) != gcodes.Unavailable {
+				return &fail{"wrapper-reject-wrong-error:" + kind, fmt.Sprintf("%s: rejection surfaced as %v, want status Unavailable", what, err)}
+			}
+		} else if !errors.Is(err, breaker.ErrServiceUnavailable) {
+			return &fail{"wrapper-reject-wrong-error:" + kind, fmt.Sprintf("%s: rejection surfaced as %v, want ErrServiceUnavailable", what, err)}
+		}
+		return oneRecord(what, bname, s0, f0, d0, KD)
+	}
+	if calls != 1 {
+		return &fail{"wrapper-request-count:" + kind, fmt.Sprintf("%s: handler ran %d times", what, calls)}
+	}
+	if kind == "zrpc-unary" && resp != any(respVal) {
+		return &fail{"wrapper-response-changed:" + kind, what + ": response not passed through"}
+	}
+	if server && errors.Is(ne.err, breaker.ErrServiceUnavailable) {
+		if status.Code(err) != gcodes.Unavailable {
+			return &fail{"wrapper-error-changed:" + kind, fmt.Sprintf("%s: returned %v, want status Unavailable", what, err)}
+		}
+	} else if err != ne.err {
+		return &fail{"wrapper-error-changed:" + kind, fmt.Sprintf("%s: handler returned %v, interceptor returned %v", what, ne.err, err)}
+	}
+	want := KF
+	if ne.success {
+		want = KS
+	}
+	return oneRecord(what, bname, s0, f0, d0, want)
+}
+
+// ---------- redis ----------
+
+func redisErrors() []namedErr {
+	return []namedErr{
+		{"nil", nil, true},
+		{"redis.Nil", red.Nil, true},
+		{"context.Canceled", context.Canceled, true},
+		{"context.DeadlineExceeded", context.DeadlineExceeded, false},
+		{"io.EOF", io.EOF, false},
+		{"plain-error", errors.New("ERR c01"), false},
+		{"tx-failed", red.TxFailedErr, false},
+		{"closed", red.ErrClosed, false},
+	}
+}
+
+// redisCase: Code 0 = single command "get", 1 = pipeline, 2 = blpop (bypasses the breaker);
+// first through a counting fake breaker, then through a real one (window delta).
+func redisCase(errName string, mode int) *fail {
+	vsched.SetNow(0)
+	ne, ok := findErr(redisErrors(), errName)
+	if !ok {
+		return &fail{"bad-case", "unknown error " + errName}
+	}
+	ctx := context.Background()
+	what := fmt.Sprintf("redis-hook/%s/mode%d", errName, mode)
+	run := func(b breaker.Breaker) (calls int, err error) {
+		h := redis.VerifBreakerHook(b)
+		switch mode {
+		case 1:
+			ph := h.ProcessPipelineHook(func(ctx context.Context, cmds []red.Cmder) error { calls++; return ne.err })
+			err = ph(ctx, []red.Cmder{red.NewStringCmd(ctx, "get", "k"), red.NewStringCmd(ctx, "get", "q")})
+		case 2:
+			ph := h.ProcessHook(func(ctx context.Context, cmd red.Cmder) error { calls++; return ne.err })
+			err = ph(ctx, red.NewStringSliceCmd(ctx, "blpop", "k", 1))
+		default:
+			ph := h.ProcessHook(func(ctx context.Context, cmd red.Cmder) error { calls++; return ne.err })
+			err = ph(ctx, red.NewStringCmd(ctx, "get", "k"))
+		}
+		return
+	}
+	fb := newFake()
+	calls, err := run(fb)
+	if calls != 1 {
+		return &fail{"wrapper-request-count:redis", fmt.Sprintf("%s: command ran %d times", what, calls)}
+	}
+	if err != ne.err {
+		return &fail{"wrapper-error-changed:redis", fmt.Sprintf("%s: command returned %v, hook returned %v", what, ne.err, err)}
+	}
+	if mode == 2 {
+		if fb.total() != 0 {
+			return &fail{"redis-blocking-command-through-breaker", what + ": blpop went through the breaker"}
+		}
+		return nil
+	}
+	if fb.total() != 1 || len(fb.verdicts) != 1 {
+		return &fail{"wrapper-breaker-calls:redis", fmt.Sprintf("%s: breaker consulted %d times (%v)", what, fb.total(), fb.calls)}
+	}
+	if fb.verdicts[0] != ne.success {
+		return &fail{"redis-classification:" + errName, fmt.Sprintf("%s: classified as success=%v, documented success=%v", what, fb.verdicts[0], ne.success)}
+	}
+	// and through a real breaker
+	b := breaker.NewBreaker()
+	_, s0, f0, d0 := breaker.VerifTotals(b)
+	calls, err = run(b)
+	_, s1, f1, d1 := breaker.VerifTotals(b)
+	if calls != 1 || err != ne.err {
+		return &fail{"wrapper-error-changed:redis", fmt.Sprintf("%s (real breaker): ran %d times, returned %v", what, calls, err)}
+	}
+	ws, wf := int64(0), int64(1)
+	if ne.success {
+		ws, wf = 1, 0
+	}
+	if s1-s0 != ws || f1-f0 != wf || d1 != d0 {
+		return &fail{"wrapper-wrong-kind:redis", fmt.Sprintf("%s: real breaker changed by S%+d F%+d D%+d", what, s1-s0, f1-f0, d1-d0)}
+	}
+	return nil
+}
+
+// ---------- sqlx ----------
+
+var errUserOK = errors.New("c01 user-accepted error")
+
+func sqlErrors() []namedErr {
+	return []namedErr{
+		{"nil", nil, true},
+		{"sql.ErrNoRows", sql.ErrNoRows, true},
+		{"sql.ErrTxDone", sql.ErrTxDone, true},
+		{"context.Canceled", context.Canceled, true},
+		{"context.DeadlineExceeded", context.DeadlineExceeded, false},
+		{"sql.ErrConnDone", sql.ErrConnDone, false},
+		{"plain-error", errors.New("c01 db down"), false},
+		{"user-accepted", errUserOK, false}, // success only with the WithAcceptable option
+	}
+}
+
+// sqlCase: mode 0 ExecCtx, 1 QueryRowCtx, 2 TransactCtx (fn returns the error), 3 ExecCtx with
+// too few arguments (formatting error), 4 QueryRowCtx whose scan fails.
+func sqlCase(errName string, mode int, opt bool) *fail {
+	vsched.SetNow(0)
+	ne, ok := findErr(sqlErrors(), errName)
+	if !ok {
+		return &fail{"bad-case", "unknown error " + errName}
+	}
+	success := ne.success || (opt && ne.err == errUserOK)
+	db, mock, err := sqlmock.New(sqlmock.QueryMatcherOption(sqlmock.QueryMatcherEqual))
+	if err != nil {
+		vlib.Fatal("sqlmock: %v", err)
+	}
+	defer db.Close()
+	fb := newFake()
+	var opts []sqlx.SqlOption
+	if opt {
+		opts = append(opts, sqlx.WithAcceptable(func(err error) bool { return errors.Is(err, errUserOK) }))
+	}
+	conn := sqlx.VerifNewConn(db, fb, opts...)
+	ctx := context.Background()
+	what := fmt.Sprintf("sqlx/%s/mode%d/opt=%v", errName, mode, opt)
+	var got error
+	switch mode {
+	case 0:
+		ex := mock.ExpectExec("update t set a=1")
+		if ne.err != nil {
+			ex.WillReturnError(ne.err)
+		} else {
+			ex.WillReturnResult(sqlmock.NewResult(1, 1))
+		}
+		_, got = conn.ExecCtx(ctx, "update t set a=1")
+	case 1:
+		q := mock.ExpectQuery("select a from t")
+		if ne.err != nil {
+			q.WillReturnError(ne.err)
+		} else {
+			q.WillReturnRows(sqlmock.NewRows([]string{"a"}).AddRow(5))
+		}
+		var v int
+		got = conn.QueryRowCtx(ctx, &v, "select a from t")
+	case 2:
+		mock.ExpectBegin()
+		if ne.err != nil {
+			mock.ExpectRollback()
+		} else {
+			mock.ExpectCommit()
+		}
+		got = conn.TransactCtx(ctx, func(context.Context, sqlx.Session) error { return ne.err })
+	case 3:
+		_, got = conn.ExecCtx(ctx, "update t set a=? where b=?", 1)
+		if got == nil {
+			return &fail{"sqlx-arg-mismatch-accepted-silently", what + ": too few arguments gave no error"}
+		}
+		success = true
+	case 4:
+		mock.ExpectQuery("select a from t").WillReturnRows(sqlmock.NewRows([]string{"a"}).AddRow("not-a-number"))
+		var v int
+		got = conn.QueryRowCtx(ctx, &v, "select a from t")
+		if got == nil {
+			return &fail{"harness-sql-scan", what + ": scan unexpectedly succeeded"}
+		}
+		success = true
+	}
+	if mode <= 2 && !errors.Is(got, ne.err) && !(got == nil && ne.err == nil) {
+		return &fail{"wrapper-error-changed:sqlx", fmt.Sprintf("%s: injected %v, returned %v", what, ne.err, got)}
+	}
+	if mode <= 2 && ne.err == nil && got != nil {
+		return &fail{"wrapper-error-changed:sqlx", fmt.Sprintf("%s: no error injected, returned %v", what, got)}
+	}
+	if fb.total() != 1 || len(fb.verdicts) != 1 {
+		return &fail{"wrapper-breaker-calls:sqlx", fmt.Sprintf("%s: breaker consulted %d times (%v)", what, fb.total(), fb.calls)}
+	}
+	if fb.verdicts[0] != success {
+		return &fail{fmt.Sprintf("sqlx-classification:%s/mode%d", errName, mode), fmt.Sprintf("%s: classified as success=%v, documented success=%v", what, fb.verdicts[0], success)}
+	}
+	if e := mock.ExpectationsWereMet(); e != nil && mode != 3 {
+		return &fail{"wrapper-request-count:sqlx", fmt.Sprintf("%s: %v", what, e)}
+	}
+	return nil
+}
+
+// ---------- enumeration ----------
+
+func runWrapCase(c WrapCase) *fail {
+	switch c.Kind {
+	case "rest":
+		return restCase(c.Code)
+	case "zrpc-client", "zrpc-unary", "zrpc-stream":
+		return grpcCase(c.Kind, c.Err, c.Code)
+	case "redis":
+		return redisCase(c.Err, c.Code)
+	case "sqlx":
+		return sqlCase(c.Err, c.Code, c.Opt)
+	}
+	return &fail{"bad-case", "unknown wrapper " + c.Kind}
+}
+
+func wrapCases() []WrapCase {
+	var cs []WrapCase
+	cs = append(cs, WrapCase{Kind: "rest", Code: 0})
+	for code := 200; code <= 599; code++ {
+		cs = append(cs, WrapCase{Kind: "rest", Code: code})
+	}
+	for _, kind := range []string{"zrpc-client", "zrpc-unary", "zrpc-stream"} {
+		for _, ne := range grpcErrors(kind != "zrpc-client") {
+			for mode := 0; mode <= 2; mode++ {
+				if kind == "zrpc-stream" && mode == 1 {
+					continue
+				}
+				cs = append(cs, WrapCase{Kind: kind, Err: ne.name, Code: mode})
+			}
+		}
+	}
+	for _, ne := range redisErrors() {
+		for mode := 0; mode <= 2; mode++ {
+			cs = append(cs, WrapCase{Kind: "redis", Err: ne.name, Code: mode})
+		}
+	}
+	for _, ne := range sqlErrors() {
+		for mode := 0; mode <= 2; mode++ {
+			for _, opt := range []bool{false, true} {
+				cs = append(cs, WrapCase{Kind: "sqlx", Err: ne.name, Code: mode, Opt: opt})
+			}
+		}
+	}
+	cs = append(cs, WrapCase{Kind: "sqlx", Err: "nil", Code: 3}, WrapCase{Kind: "sqlx", Err: "nil", Code: 4})
+	return cs
+}
+
+func runWrappers(r *vlib.Report) {
+	n := map[string]int{}
+	for _, c := range wrapCases() {
+		c := c
+		f := runWrapCase(c)
+		r.Eval(1)
+		n[c.Kind]++
+		r.Nontrivial("wrap|" + c.String())
+		if f != nil {
+			r.Violation(f.class, fmt.Sprintf("wrapper case %v: %s", c, f.msg), Case{Engine: "wrapper", Wrap: &c})
+		}
+	}
+	hook.mode = ansPass
+	r.Scenario("wrappers", n)
+}
+
+func replayWrapper(c *WrapCase) *fail {
+	if c == nil {
+		return &fail{"bad-case", "no wrapper case in replay"}
+	}
+	fmt.Printf("wrapper case: %v\n", *c)
+	return runWrapCase(*c)
+}
